@@ -71,6 +71,11 @@ def cases(tier, seed, flavour):
         c['tier'] = tier
         c['seed'] = seed
         yield c
+    # call histories: a wrapper carries nothing over from one call to the next (flag defaults, scratch state).  For every
+    # function, all ordered pairs (a, b) of configurations - order 3 / 4 x every flag keyword given each of its values or
+    # omitted: b observed right after a must equal b observed in a process that has called nothing (checks/C18.py, family hist)
+    for f in R.FUNCTIONS:
+        yield {'f': f, 'mode': 'callhist', 'tier': tier, 'seed': seed}
 
 
 def _cases(tier):
@@ -506,7 +511,31 @@ def _run_r(st, case, dm, seed):
             evaluate(st, f, tcs, shapes, dict(kw, **{name: None}))
 
 
+def _run_callhist(case):
+    import subprocess, sys, json, os
+    name = case['f']
+    here = os.path.dirname(os.path.dirname(os.path.abspath(__file__)))
+    p = subprocess.run([sys.executable, '-c', 'from checks import C18; C18._hist_server(%r, "blas")' % name],
+                       stdout=subprocess.PIPE, stderr=subprocess.PIPE, cwd=here)
+    viol = []
+    try:
+        res = json.loads(p.stdout.decode().strip().splitlines()[-1])
+    except Exception:
+        return {'n': 1, 'viol': [{'key': 'C17:hist:%s:server-failed' % name, 'msg': 'history server for blas.%s produced no result (rc=%s): %s'
+                                  % (name, p.returncode, p.stderr.decode()[-600:])}]}
+    for d in res['diffs']:
+        viol.append({'key': 'C17:hist:%s:result-depends-on-previous-call' % name,
+                     'msg': 'blas.%s: the call %r gives %r (values %r) from the initial state but %r (values %r) after the call %r%s'
+                            % (name, d['b'], d['alone'], d['alone_vals'], d['after'], d['after_vals'], d['a'],
+                               ' (both behind a call with another order)' if d['reset'] else ''), 'sub': {'history': d}})
+    return {'n': res['histories'], 'nontrivial': res['histories'] - 2 * res['configs'], 'viol': viol,
+            'outcomes': dict(('hist-last-call-' + k, v) for k, v in res['outcomes'].items()),
+            'states': res['states'], 'transitions': res['histories'], 'traces': res['histories']}
+
+
 def run(case):
+    if case.get('mode') == 'callhist':
+        return _run_callhist(case)
     seed = case.get('seed', 0)
     dm = _dom(case['tier'])
     st = State(seed, case['f'])
